@@ -34,10 +34,10 @@ def fault_class(x: bytes):
     return "bad_checksum"
 
 
-def judge(x: bytes, mode=0):
+def judge(x: bytes, mode=0, pbf=1):
     wf = ref.wellformed(x)
     try:
-        UBXReader.parse(x, msgmode=mode, validate=1)
+        UBXReader.parse(x, msgmode=mode, validate=1, parsebitfield=pbf)
         ret = "returned"
     except ube.UBXParseError:
         ret = "parse-error"
@@ -58,15 +58,15 @@ def attrs(msg):
     return {k: v for k, v in msg.__dict__.items() if not k.startswith("_")}
 
 
-def judge_valnone(frame: bytes, ck: bytes, mode):
+def judge_valnone(frame: bytes, ck: bytes, mode, pbf=1):
     """Frame with its checksum replaced by ck parses under VALNONE like the intact frame."""
     try:
-        good = UBXReader.parse(frame, msgmode=mode, validate=1)
+        good = UBXReader.parse(frame, msgmode=mode, validate=1, parsebitfield=pbf)
     except UBX_ERRORS:
         return "intact-refused", []
     x = frame[:-2] + ck
     try:
-        got = UBXReader.parse(x, msgmode=mode, validate=0)
+        got = UBXReader.parse(x, msgmode=mode, validate=0, parsebitfield=pbf)
     except Exception as e:  # noqa: BLE001
         return "viol", [(f"valnone_refuses_corrupt_checksum|{type(e).__name__}", f"x={x.hex()[:64]}")]
     # having been parsed leniently must not make the corrupted frame acceptable afterwards
@@ -128,6 +128,10 @@ def replay_case(case):
         if case["paired"]:
             x[-3 - k] = (x[-3 - k] - d) % 256
         return [(a + "|max_length_frame", b) for a, b in judge(bytes(x), 0)[2]]
+    if case["kind"] == "fault" and "pbf" in case:
+        return [(a + f"|msgmode={case['mode']}|parsebitfield={case['pbf']}", b) for a, b in judge(bytes.fromhex(case["x"]), case["mode"], case["pbf"])[2]]
+    if case["kind"] == "valnone" and "pbf" in case:
+        return [(a + f"|msgmode={case['mode']}|parsebitfield={case['pbf']}", b) for a, b in judge_valnone(bytes.fromhex(case["frame"]), bytes.fromhex(case["ck"]), case["mode"], case["pbf"])[1]]
     if case["kind"] == "fault":
         out = judge(bytes.fromhex(case["x"]), case.get("mode", 0))[2]
         return [(a + "|sealed_with_library_checksum", b) for a, b in out] if case.get("fault") == "sealed" else out
@@ -186,6 +190,17 @@ def eval_block(block, acc):
         for t in ("U0", "Uack", "Ucfg", "Uunk"):
             frame = streams.TOKENS[t][2]
             run_faults(frame, 0, ALL, False, acc, t)
+            for mode2, pbf2 in ((3, 0), (3, 1), (1, 0), (0, 0)):
+                for kind2, x in faults(frame, FEW, False):
+                    wf, ret, out = judge(x, mode2, pbf2)
+                    acc.evaluations += 1
+                    acc.outcomes[("cfg", mode2, pbf2, wf, ret.split(":")[0])] += 1
+                    for key, detail in out:
+                        acc.violation(key + f"|msgmode={mode2}|parsebitfield={pbf2}", {"kind": "fault", "x": x.hex(), "mode": mode2, "pbf": pbf2, "fault": kind2, "family": t}, detail)
+                for ck in single_byte_cks(frame)[::37]:
+                    st2, out2 = judge_valnone(frame, ck, mode2, pbf2)
+                    for key, detail in out2:
+                        acc.violation(key + f"|msgmode={mode2}|parsebitfield={pbf2}", {"kind": "valnone", "frame": frame.hex(), "ck": ck.hex(), "mode": mode2, "pbf": pbf2}, detail)
             run_valnone(frame, 0, single_byte_cks(frame) if quick else [bytes((a, b)) for a in range(256) for b in range(256)], acc)
         for t in ("Uack", "Uunk"):
             frame = streams.TOKENS[t][2]
